@@ -88,6 +88,31 @@ func writeLiveMessage(
 	return err
 }
 
+// writeLiveAck acknowledges a command that turns the connection into a stream
+// (AOF, MONITOR) in the connection's output mode and transport framing.
+func writeLiveAck(conn net.Conn, msg *Message) error {
+	if msg.OutputType != JSON {
+		_, err := conn.Write([]byte("+OK\r\n"))
+		return err
+	}
+	const body = `{"ok":true}`
+	var err error
+	switch msg.ConnType {
+	case HTTP:
+		_, err = fmt.Fprintf(conn, "HTTP/1.1 200 OK\r\n"+
+			"Connection: close\r\n"+
+			"Content-Type: application/json; charset=utf-8\r\n"+
+			"Content-Length: %d\r\n\r\n%s\r\n", len(body)+2, body)
+	case WebSocket:
+		err = WriteWebSocketMessage(conn, []byte(body))
+	case Native:
+		_, err = fmt.Fprintf(conn, "$%d %s\r\n", len(body), body)
+	default:
+		_, err = fmt.Fprintf(conn, "$%d\r\n%s\r\n", len(body), body)
+	}
+	return err
+}
+
 func (s *Server) goLive(
 	inerr error, conn net.Conn, rd *PipelineReader, msg *Message, websocket bool,
 ) error {
